@@ -8,6 +8,7 @@
 #include <aws/common/assert.h>
 #include <aws/common/macros.h>
 #include <aws/common/mutex.h>
+#include <aws/common/zero.h>
 
 /*
  * Small Block Allocator
@@ -109,6 +110,13 @@ static void *s_page_bind(void *addr, struct sba_bin *bin) {
     return (uint8_t *)addr + sizeof(struct page_header);
 }
 
+/* Erases the page tags before a page is handed back, in case the memory is re-used (s_sba_free() looks for them at
+ * the base of whatever page a pointer lies in). Plain stores to memory that is about to be freed are dead stores as far
+ * as the optimizer is concerned - GCC and clang remove them at -O2 - so this has to go through aws_secure_zero(). */
+static void s_page_unbind(struct page_header *page) {
+    aws_secure_zero(page, sizeof(struct page_header));
+}
+
 /* Wraps OS-specific aligned malloc implementation */
 static void *s_aligned_alloc(size_t size, size_t align) {
 #ifdef _WIN32
@@ -190,14 +198,14 @@ static void s_sba_clean_up(struct small_block_allocator *sba) {
             struct page_header *page = page_addr;
             AWS_ASSERT(page->alloc_count == 0 && "Memory still allocated in aws_sba_allocator (bin)");
             /* ensure that the page tag is erased, in case this memory is re-used (see s_sba_free_to_bin) */
-            page->tag = page->tag2 = 0;
+            s_page_unbind(page);
             s_aligned_free(page);
         }
         if (bin->page_cursor) {
             void *page_addr = s_page_base(bin->page_cursor);
             struct page_header *page = page_addr;
             AWS_ASSERT(page->alloc_count == 0 && "Memory still allocated in aws_sba_allocator (page)");
-            page->tag = page->tag2 = 0;
+            s_page_unbind(page);
             s_aligned_free(page);
         }
 
@@ -372,7 +380,7 @@ static void s_sba_free_to_bin(struct sba_bin *bin, void *addr) {
             }
         }
         /* ensure that the page tag is erased, in case nearby memory is re-used */
-        page->tag = page->tag2 = 0;
+        s_page_unbind(page);
         s_aligned_free(page);
         return;
     }
